@@ -134,6 +134,16 @@ def _(env, I, T):
     return _req(env, 'PUT', '/streams/add?ajax=1', json_body={'title': 'dup', 'directory': 'synirr', 'csrf_token': T['streams']})
 
 
+@action('create stream with the directory of synirr, spelt prefix (json)')
+def _(env, I, T):
+    return _req(env, 'PUT', '/streams/add?ajax=1', json_body={'title': 'dup p', 'prefix': 'synirr', 'csrf_token': T['streams']})
+
+
+@action('create stream d1, spelt prefix (form)')
+def _(env, I, T):
+    return _req(env, 'POST', '/streams/add', data={'title': 'D one p', 'prefix': 'd1', 'csrf_token': T['streams']})
+
+
 @action('edit synirr: title + timing ref synirr_a1')
 def _(env, I, T):
     return _req(env, 'POST', f'/stream/{_spk(I, "synirr")}?ajax=1',
